@@ -14,6 +14,69 @@ Theorem C01_case_check_iff : forall c,
 Proof. exact check_nil_iff. Qed.
 Print Assumptions C01_case_check_iff.
 
+(* ---------------------------------------------------------------------------------------------
+   Feasibility / totality of the rule MODELS (proved in the rule developments; the models are
+   tied to the code by the correspondence checks of C02-C05, C09).  Unbounded: every instance,
+   profile, tie-breaking key, enumeration order, multiplicities, resolute and irresolute.       *)
+From PB Require Model.GreedyRule Proofs.GreedyP Proofs.GreedyAddP Model.Phragmen Proofs.PhragmenP
+                Model.Exhaustion Proofs.ExhaustionP.
+
+Theorem C01_greedy_feasible : forall I sat sp tb,
+  Forall (fun c => 0 <= c) (costs I) -> forall init, feasible I init ->
+  (forall additive W, GreedyRule.greedy_welfare_res I sat sp tb additive init = Some W ->
+     feasible I W /\ incl init W) /\
+  (forall additive Ws W, GreedyRule.greedy_welfare_irr I sat tb additive init = Some Ws -> In W Ws ->
+     feasible I W /\ incl init W).
+Proof. exact GreedyAddP.greedy_feasible. Qed.
+Print Assumptions C01_greedy_feasible.
+
+Theorem C01_greedy_total : forall I sat sp tb,
+  Forall (fun c => 0 <= c) (costs I) -> forall additive init,
+  (exists W, GreedyRule.greedy_welfare_res I sat sp tb additive init = Some W) /\
+  (exists Ws, GreedyRule.greedy_welfare_irr I sat tb additive init = Some Ws /\ Ws <> []).
+Proof. exact GreedyAddP.greedy_total. Qed.
+Print Assumptions C01_greedy_total.
+
+Theorem C01_phragmen_feasible : forall I P tb enum loads init W,
+  NoDup enum -> (forall p, In p enum -> (p < nproj I)%nat) -> feasible I init ->
+  Phragmen.phragmen_res I P tb enum loads init = Some W -> feasible I W /\ incl init W.
+Proof. exact PhragmenP.phragmen_feasible_res. Qed.
+Print Assumptions C01_phragmen_feasible.
+
+Theorem C01_phragmen_feasible_irresolute : forall I P tb enum loads init Ws W,
+  NoDup enum -> (forall p, In p enum -> (p < nproj I)%nat) -> feasible I init ->
+  Phragmen.phragmen_irr I P tb enum loads init = Some Ws -> In W Ws -> feasible I W /\ incl init W.
+Proof. exact PhragmenP.phragmen_feasible_irr. Qed.
+Print Assumptions C01_phragmen_feasible_irresolute.
+
+Theorem C01_phragmen_total : forall I P tb enum loads init,
+  (exists W, Phragmen.phragmen_res I P tb enum loads init = Some W) /\
+  (exists Ws, Phragmen.phragmen_irr I P tb enum loads init = Some Ws).
+Proof. exact PhragmenP.phragmen_total. Qed.
+Print Assumptions C01_phragmen_total.
+
+(* wrappers, for ANY base rule meeting its contract: budget increase ... *)
+Theorem C01_increase_feasible : forall I init, feasible I init ->
+  forall R : Q -> Exhaustion.alloc,
+  (forall b, feasible (mkInst (costs I) b) (R b)) ->
+  (forall b, incl init (R b)) ->
+  forall stop step bound fuel k W,
+  Exhaustion.increase_res I R init stop step bound fuel = Some (k, W) -> feasible I W /\ incl init W.
+Proof. exact ExhaustionP.increase_res_feasible. Qed.
+Print Assumptions C01_increase_feasible.
+
+(* ... and completion by rule combination *)
+Theorem C01_completion_feasible : forall I (rules : list (Exhaustion.alloc -> Exhaustion.alloc)),
+  (forall r a, In r rules -> incl a (r a)) ->
+  (forall r a, In r rules -> feasible I a -> feasible I (r a)) ->
+  forall init, feasible I init ->
+  let W := Exhaustion.complete_res I rules init in
+  incl init W /\ feasible I W /\
+  match rules with [] => W = init | r1 :: _ => incl (r1 init) W end /\
+  (Exhaustion.exh_all I W = true \/ W = fold_left (fun a r => r a) rules init).
+Proof. exact ExhaustionP.complete_res_spec. Qed.
+Print Assumptions C01_completion_feasible.
+
 Example C01_nonvacuous :
   let I := mkInst [1; 2; 3] 3 in
   out_ok I [0]%nat [0; 1]%nat = true /\ out_ok I [0]%nat [1; 2]%nat = false /\
